@@ -1,6 +1,6 @@
 (* C14: remove_measurements/barriers/includes remove all and only those statements. *)
 From Coq Require Import ZArith List Bool String.
-From Verif Require Import BGate PyVal Ast State Unroll Corr Spec Transforms TransformProofs ModuleSpec ModuleProofs FixProofs ValidProofs.
+From Verif Require Import BGate PyVal Ast State Unroll Corr Spec Transforms TransformProofs ModuleSpec ModuleProofs Depth DepthModel FixProofs ValidProofs.
 Import ListNotations.
 Open Scope Z_scope.
 
@@ -51,3 +51,12 @@ Theorem C14_result_is_a_valid_program_the_visitor_leaves_as_it_is fuel k p :
   (exists o, run_visit false false [] fuel (remove_kind k p) = Ok o /\ o_stmts o = remove_kind k p).
 Proof. exact (removal_result_is_valid_and_stable fuel k p). Qed.
 Print Assumptions C14_result_is_a_valid_program_the_visitor_leaves_as_it_is.
+
+(* "... and depth() equals the depth of the remaining circuit": the depth counters the visitor model computes for the program
+   after the removal are the recurrence of Props/C09.v over the operations that remain, in order *)
+Theorem C14_depth_after_removal_is_the_depth_of_what_remains fuel k p :
+  wf_flat env0 p = true -> has_empty_if (remove_kind k p) = false -> (ldepth (remove_kind k p) < fuel)%nat ->
+  exists o, run_visit false true [] fuel (remove_kind k p) = Ok o /\
+            forall r, dof (o_state o) r = depth_after rsrc_eqb (evs_of (remove_kind k p)) r.
+Proof. exact (removal_depth_is_depth_of_what_remains fuel k p). Qed.
+Print Assumptions C14_depth_after_removal_is_the_depth_of_what_remains.
